@@ -11,6 +11,7 @@ EXTENDS JaqSem
 TId            == [k |-> "id"]
 TRec           == [k |-> "recurse"]
 TNum(n)        == [k |-> "num", n |-> n]
+TBig(neg, d)   == [k |-> "bignum", neg |-> neg, d |-> d]
 TStr(c)        == [k |-> "str", parts |-> << [p |-> "s", c |-> c] >>]
 TArr(f)        == [k |-> "arr", f |-> f]
 TArr0          == [k |-> "arr"]
